@@ -316,6 +316,52 @@ def run_with_sink2(ns, qtext, A, B, a_names, b_names, sink):
     return exc, reads_after, w
 
 
+def leg_js_bad_bytes(ns, res, spec):
+    """The JS readers (bulk and stream, several chunkings): an invalid UTF-8 sequence at any position is an IO-handling error."""
+    from ..js import bridge
+    node = bridge.Node.start()
+    if node is None:
+        res.notes.append('js bad-bytes leg: unavailable (no node)')
+        return
+    try:
+        good = 'k1,é1\nk2,"x\ny2"\n€3,z3\n'.encode('utf-8')
+        bads = [b'\xff', b'\x80', b'\xc3', b'\xe2\x82', b'\xf0\x9f\x98', b'\xc0\x80', b'\xed\xa0\x80']
+        reqs, meta = [], []
+        for p in list(range(0, len(good) + 1)):
+            for bad in bads:
+                data = good[:p] + bad + good[p:]
+                try:
+                    data.decode('utf-8')
+                    continue
+                except UnicodeDecodeError:
+                    pass
+                n = len(data)
+                for chunks in (None, [n], [1] * n, [p, n - p] if 0 < p < n else [n], [p + 1, n - p - 1] if p + 1 < n else [n], [3] * (n // 3) + ([n % 3] if n % 3 else [])):
+                    for policy in ('quoted_rfc', 'simple'):
+                        reqs.append({'bytes_hex': data.hex(), 'chunks': chunks, 'encoding': 'utf-8', 'delim': ',', 'policy': policy, 'has_header': False, 'comment_prefix': None})
+                        meta.append((data, chunks, policy, p, bad))
+        for bad in bads[2:5]:      # the whole input / the tail after the last line break is a truncated sequence
+            for data in (bad, b'a,b\n1,2\n' + bad, b'a,b\r\n' + bad):
+                for chunks in (None, [len(data)], [1] * len(data)):
+                    reqs.append({'bytes_hex': data.hex(), 'chunks': chunks, 'encoding': 'utf-8', 'delim': ',', 'policy': 'quoted', 'has_header': False, 'comment_prefix': None})
+                    meta.append((data, chunks, 'quoted', None, bad))
+        outs = node.call({'op': 'read_batch', 'cases': reqs})['results']
+        for (data, chunks, policy, p, bad), o in zip(meta, outs):
+            res.evaluations += 1
+            res.count('js_bad_byte_runs')
+            res.count('js_bad_byte_runs:' + ('bulk' if chunks is None else 'stream'))
+            res.distinct_disjoint += 1
+            cls = o['error'] and o['error']['cls']
+            if o.get('stuck') or cls != 'RbqlIOHandlingError':
+                res.violation('js:bad-byte-not-io-error:' + ('bulk' if chunks is None else 'stream'), '[js] invalid sequence %r in %r (%s, chunks %r): error %r, stuck %s, records %r' % (
+                    bad, data, policy, chunks, o['error'], o.get('stuck'), o['records']), {'leg': 'js-bad-bytes', 'data_hex': data.hex(), 'chunks': chunks, 'policy': policy})
+        noise = node.take_noise()
+        if noise:
+            res.violation('js:node-async-noise', 'unhandled rejection / uncaught exception in node while reading invalid input: %r' % (noise[:3],), {'leg': 'js-bad-bytes'})
+    finally:
+        node.close()
+
+
 def leg_bad_bytes(ns, res, spec):
     good_text = 'k1,é1\nk2,"x\ny2"\n€3,z3\nk4,😀4\nk5,v5\n'
     good = good_text.encode('utf-8')
@@ -533,7 +579,7 @@ def leg_real_pipe(ns, res, spec):
 
 
 def plan(tier, seed):
-    specs = [{'kind': 'pipe'}, {'kind': 'protocol'}, {'kind': 'bytes'}, {'kind': 'descriptors', 'n': 2 if tier == 'quick' else 20}]
+    specs = [{'kind': 'pipe'}, {'kind': 'protocol'}, {'kind': 'bytes'}, {'kind': 'js-bytes'}, {'kind': 'descriptors', 'n': 2 if tier == 'quick' else 20}]
     specs += [{'kind': 'generated', 'i': i, 'n': 120 if tier == 'quick' else 2500} for i in range(6 if tier == 'quick' else 12)]
     specs.append({'kind': 'realpipe', 'n': 3 if tier == 'quick' else 5, 'cuts': [0, 10, 70000] if tier == 'quick' else [0, 1, 10, 4096, 65536, 70000, 300000]})
     return specs
@@ -541,14 +587,14 @@ def plan(tier, seed):
 
 def run_shard(spec, res):
     ns = env.import_rbql()
-    {'pipe': leg_broken_pipe, 'generated': leg_generated, 'protocol': leg_writer_protocol, 'bytes': leg_bad_bytes, 'descriptors': leg_descriptors, 'realpipe': leg_real_pipe}[spec['kind']](ns, res, spec)
+    {'pipe': leg_broken_pipe, 'generated': leg_generated, 'protocol': leg_writer_protocol, 'bytes': leg_bad_bytes, 'js-bytes': leg_js_bad_bytes, 'descriptors': leg_descriptors, 'realpipe': leg_real_pipe}[spec['kind']](ns, res, spec)
 
 
 def summarize(tier, seed, m):
     return {
-        'rule': 'fault enumeration: for each of %d query shapes (streaming, WHERE, header, UPDATE, ORDER BY, TOP, GROUP BY, DISTINCT, DISTINCT COUNT, UNNEST, multi-match JOIN, LEFT JOIN star, None output) the output stream raises BrokenPipeError at every write index k in 1..writes+1 (text sink and raw byte sink behind the writer\'s TextIOWrapper; large outputs sampled), and a user writer returns False at every k; the same two fault enumerations over generated queries of every clause combination (C01-C05 generators, random tables); an invalid UTF-8 sequence at every offset x 7 sequences x 5 chunk sizes; %d descriptor scenarios (success, parse / syntax / runtime / IO error, missing input, missing join table) x header flag with every file object opened by the CSV / sqlite front-ends tracked; the command line writing 30000 rows into a real OS pipe whose reader closes after N bytes (exit status 0, silent stderr, delivered bytes a prefix). distinct_nontrivial counts enumerated fault points.' % (len(SHAPES), len(DESCRIPTOR_SCENARIOS)),
+        'rule': 'fault enumeration: for each of %d query shapes (streaming, WHERE, header, UPDATE, ORDER BY, TOP, GROUP BY, DISTINCT, DISTINCT COUNT, UNNEST, multi-match JOIN, LEFT JOIN star, None output) the output stream raises BrokenPipeError at every write index k in 1..writes+1 (text sink and raw byte sink behind the writer\'s TextIOWrapper; large outputs sampled), and a user writer returns False at every k; the same two fault enumerations over generated queries of every clause combination (C01-C05 generators, random tables); an invalid UTF-8 sequence at every offset x 7 sequences x 5 chunk sizes (Python reader) and x 6 deliveries x 2 policies through the JS bulk and stream readers, plus truncated sequences as the whole input or right after the last line break; %d descriptor scenarios (success, parse / syntax / runtime / IO error, missing input, missing join table) x header flag with every file object opened by the CSV / sqlite front-ends tracked; the command line writing 30000 rows into a real OS pipe whose reader closes after N bytes (exit status 0, silent stderr, delivered bytes a prefix). distinct_nontrivial counts enumerated fault points.' % (len(SHAPES), len(DESCRIPTOR_SCENARIOS)),
         'exhaustive': True,
-        'required': ['generated_false_runs', 'generated_pipe_runs', 'generated_faults_triggered', 'broken_pipe_runs', 'broken_pipe:text', 'broken_pipe:bytes', 'faults_triggered', 'writer_protocol_runs', 'bad_byte_runs', 'bad_byte_big_runs', 'records_delivered_before_decode_error', 'descriptor_runs', 'files_tracked', 'descriptor_runs_sqlite', 'real_pipe_runs'],
+        'required': ['js_bad_byte_runs:bulk', 'js_bad_byte_runs:stream', 'generated_false_runs', 'generated_pipe_runs', 'generated_faults_triggered', 'broken_pipe_runs', 'broken_pipe:text', 'broken_pipe:bytes', 'faults_triggered', 'writer_protocol_runs', 'bad_byte_runs', 'bad_byte_big_runs', 'records_delivered_before_decode_error', 'descriptor_runs', 'files_tracked', 'descriptor_runs_sqlite', 'real_pipe_runs'],
         'assumptions': ['"promptly": no further stream write and at most one further input read after the pipe broke', 'set_header has no return value, so a pipe that breaks while the header line is written can only be noticed at the first data write (one further write attempt tolerated in that phase only); a buffering query (aggregates, ORDER BY, DISTINCT COUNT) issues that write after it has consumed its input, so the read bound is applied to faults at data writes', 'finish being (not) called on failing runs is not demanded'],
     }
 
